@@ -8,7 +8,7 @@ import tempfile
 
 from hypothesis import strategies as st
 
-from vlib import hist, project, simsched
+from vlib import hist, project, scratch, simsched
 from vlib.runner import CaseResult, Violation
 
 ID = "C10"
@@ -120,7 +120,7 @@ def strategy(tier):
 
 def run_script(script, flavour, stdout_path, stderr_path, jobid, append=False):
     """Execute a submitted script the way the scheduler would: foreign cwd, its own redirections."""
-    tmp = tempfile.mkdtemp(prefix="gwfexec", dir="/dev/shm" if os.path.isdir("/dev/shm") else None)
+    tmp = tempfile.mkdtemp(prefix="gwfexec", dir=scratch.base())
     try:
         sp = os.path.join(tmp, "job.sh")
         with open(sp, "w") as f:
